@@ -3,6 +3,7 @@
 package arp
 
 import (
+	"bytes"
 	"fmt"
 	"net"
 
@@ -41,6 +42,9 @@ func (r *ScanResult) ID() string {
 	return r.IP
 }
 
+// hardware type 1 (Ethernet), protocol type 0x0800 (IPv4), address sizes 6 and 4
+var arpEthIPv4Header = []byte{0, 1, 8, 0, 6, 4}
+
 func NewScanMethod(psrc scan.PacketSource, results scan.ResultChan) *ScanMethod {
 	sm := &ScanMethod{
 		PacketSource: psrc,
@@ -61,6 +65,11 @@ func (s *ScanMethod) ProcessPacketData(data []byte, _ *gopacket.CaptureInfo) err
 		return err
 	}
 	if len(s.rcvDecoded) != 2 {
+		return nil
+	}
+	// only Ethernet/IPv4 ARP packets carry a 6-byte MAC and a 4-byte IP address
+	// (the raw header is checked because gopacket truncates the hardware type to 8 bits)
+	if !bytes.HasPrefix(s.rcvARP.Contents, arpEthIPv4Header) {
 		return nil
 	}
 
